@@ -15,6 +15,7 @@ RULE = ("seeded designs with weighted levels of non-derived factors (crossed, un
 ASSUMPTIONS = ["constraints of the generated designs never target a weighted level itself (a run over different copies has no twin spelling)"]
 BUDGET = {"quick": 300, "thorough": 900}
 RUNS = {"quick": 800, "thorough": 60000}
+THOROUGH_RUNS = 2000        # the thorough tier of this (expensive) check: a fixed range sized to stay within ~15 minutes
 
 
 def expand(ast):
